@@ -897,13 +897,18 @@ type C05Pace struct {
 	Via string `json:"via,omitempty"`
 	// Ret (TestC03Pace): what the handlers return once both directions are through; nil = success
 	Ret *kit.ErrSpec `json:"ret,omitempty"`
+	// SlowOpenMs (virtual time, direct connections): the transport write that carries a call's opening envelope takes
+	// this long, while the transport completes later writes at once (a transport that writes concurrently, a queue
+	// that drains unevenly): whatever the caller does next must still follow its opening envelope on the wire
+	SlowOpenMs int `json:"slow_open_ms,omitempty"`
 }
 
 func genC05Pace(t *rapid.T) C05Pace {
 	pause := rapid.SampledFrom([]int{0, 0, 1, 3, 7, 11, 15, 25, 60})
 	return C05Pace{Streams: rapid.IntRange(1, 3).Draw(t, "streams"), Up: rapid.IntRange(0, 8).Draw(t, "up"), Down: rapid.IntRange(0, 8).Draw(t, "down"),
 		CPause: rapid.SliceOfN(pause, 1, 4).Draw(t, "c_pause"), HPause: rapid.SliceOfN(pause, 1, 4).Draw(t, "h_pause"),
-		Ser: rapid.Bool().Draw(t, "ser"), Stats: rapid.IntRange(0, 3).Draw(t, "stats") == 0, Real: false}
+		Ser: rapid.Bool().Draw(t, "ser"), Stats: rapid.IntRange(0, 3).Draw(t, "stats") == 0, Real: false,
+		SlowOpenMs: rapid.SampledFrom([]int{0, 0, 0, 30, 150, 400, 3000}).Draw(t, "slow_open_ms")}
 }
 
 func execC05Pace(t *testing.T, c C05Pace) (v Verdict) {
@@ -968,6 +973,21 @@ func execC05Pace(t *testing.T, c C05Pace) (v Verdict) {
 		}
 		w := kit.NewWorld(kit.Topo{Kind: topo, Serialize: c.Ser, Clients: c.Streams, Stats: c.Stats}, svc, nil, nil)
 		var wg sync.WaitGroup
+		if c.SlowOpenMs > 0 && !c.Real && c.Via == "" {
+			isOpen := func(r *kit.Rpc) bool { return r.GetBody() == nil && r.GetTrailer() == nil && r.GetReset_() == nil }
+			for _, l := range w.Links {
+				l.A.Hold(isOpen)
+			}
+			go func() {
+				time.Sleep(time.Duration(c.SlowOpenMs) * time.Millisecond)
+				for _, l := range w.Links {
+					l.A.Hold(nil)
+					for _, h := range l.Held() {
+						h.Release()
+					}
+				}
+			}()
+		}
 		for i := 0; i < c.Streams; i++ {
 			i := i
 			wg.Add(1)
@@ -1049,7 +1069,7 @@ func execC05Pace(t *testing.T, c C05Pace) (v Verdict) {
 			maxP = p
 		}
 	}
-	v.Info = kit.CaseInfo{Labels: []string{"pace", fmt.Sprintf("pace.slow_receiver=%v", maxP >= 11), fmt.Sprintf("pace.conns=%d", c.Streams), fmt.Sprintf("pace.real_time=%v", c.Real), "pace.via=" + topo},
+	v.Info = kit.CaseInfo{Labels: []string{"pace", fmt.Sprintf("pace.slow_receiver=%v", maxP >= 11), fmt.Sprintf("pace.conns=%d", c.Streams), fmt.Sprintf("pace.real_time=%v", c.Real), "pace.via=" + topo, fmt.Sprintf("pace.slow_open=%v", c.SlowOpenMs > 0 && !c.Real && c.Via == "")},
 		NonTrivial: maxP >= 11 && (c.Up >= 3 || c.Down >= 3), Key: fmt.Sprintf("%+v", c), Sample: c}
 	return
 }
